@@ -763,6 +763,11 @@ class YAMLPath:
                         SearchKeywordTerms(search_inverted, search_keyword,
                                            segment_id)
                     ))
+                elif segment_type is None:
+                    raise YAMLPathException((
+                        "YAML Path contains an unidentifiable [] expression"
+                        " ending at character index {} in")
+                        .format(char_idx), yaml_path)
                 else:
                     path_segments.append((segment_type, segment_id))
 
